@@ -71,9 +71,16 @@ class NativeClient:
 
     def run(self, check, params, holes):
         req = json.dumps({"check": check, "params": params, "holes": holes})
+        import select
         try:
             self.p.stdin.write(req + "\n")
             self.p.stdin.flush()
+            ready, _, _ = select.select([self.p.stdout], [], [], float(os.environ.get("VERIF_NATIVE_TIMEOUT", "120")))
+            if not ready:
+                # the real code did not come back (non-termination?): kill the server, report
+                self.p.kill()
+                _W["native"] = None
+                return {"error": "native replay timed out (the real code did not return within the limit)", "timeout": True}
             line = self.p.stdout.readline()
         except (BrokenPipeError, OSError) as e:
             raise HarnessError(f"native server died: {e}")
@@ -349,6 +356,10 @@ class SymBackend(BackendBase):
     # ---- private state
     def set_field(self, obj, field, value):
         obj.fields[field] = value
+
+    def set_attr(self, obj, name, value):
+        """plain setattr (works for __slots__ too)"""
+        self.I.setattr(obj, name, value)
 
     def get_field(self, obj, field):
         return obj.fields[field]
